@@ -47,6 +47,16 @@ CLAIMED = {
                 "(stem~n injective) is assumed - neither solver decides it - and bounded-checked. The flat src/<basename> copy is a recorded known finding.",
         "note": "One assumed string lemma; anchors inside a page rely on urllib.parse.quote being injective.",
     },
+    "C14": {
+        "engines": ["A", "Bd"],
+        "technique": "contract-based deductive verification: VCs from the AST of FortranLine.__analyse (array-encoded line, bounded column windows) against "
+                     "the fixed-form column rules, z3; bounded differential run of the real reader on both renderings of a token program",
+        "text": "Proved for lines of any length: the classifier's flags are exactly the column rules (comment iff column 1 in cC*!, OpenMP sentinel "
+                "excepted; continuation iff regular and column 6 neither blank nor '0'; long iff limit on and beyond column 72). The string-building "
+                "half (__convert, continueLine, convertToFree) and the composition with the free-form reader are outside the encoding: a bounded "
+                "differential stand-in (400 renderings) covers them and is not counted. One known finding (sequence field leaks into inline docs).",
+        "note": "Partial: classification only is proved.",
+    },
 }
 _NB = "no obligations built yet for this property in the current commit (planned in DESIGN.md section 6; technique not switched)"
-NOT_APPLICABLE = {p: _NB for p in ["C01", "C03", "C04", "C08", "C09", "C11", "C12", "C13", "C14", "C15", "C16", "C17", "C18", "C19", "C20"]}
+NOT_APPLICABLE = {p: _NB for p in ["C01", "C03", "C04", "C08", "C09", "C11", "C12", "C13", "C15", "C16", "C17", "C18", "C19", "C20"]}
